@@ -183,7 +183,7 @@ pub fn toml_text(thorough: bool) -> Report {
         o.n += 1; r.evaluations += 1; r.nontrivial += 1;
         let out = o.dir.join(format!("{:05}.toml", o.n));
         let st = std::process::Command::new("sh").arg("-c").arg("exec \"$RTBP\" 3>\"$OUT\"").env("RTBP", &rtbp).env("OUT", &out)
-            .env("VERIF_EXECD", format!("KEY_{i}")).env("VERIF_EXECD_VALUE", s).env("VERIF_EXECD_VALUE2", PAYLOADS[(i + 3) % PAYLOADS.len()].replace('\u{0}', "<nul>")).status().unwrap();
+            .env("VERIF_EXECD_VIA", if i % 2 == 1 { "from" } else { "new" }).env("VERIF_EXECD", format!("KEY_{i}")).env("VERIF_EXECD_VALUE", s).env("VERIF_EXECD_VALUE2", PAYLOADS[(i + 3) % PAYLOADS.len()].replace('\u{0}', "<nul>")).status().unwrap();
         if !st.success() { r.violation("serialise", "write_exec_d_program_output failed", format!("{s:?}"), "exit 0".into(), format!("{st:?}")); continue; }
         let exp = json!({"kind": "execd", "value": {format!("KEY_{i}"): s, "OTHER": PAYLOADS[(i + 3) % PAYLOADS.len()].replace('\u{0}', "<nul>")}});
         std::fs::write(o.dir.join(format!("{:05}.json", o.n)), serde_json::to_vec(&exp).unwrap()).unwrap();
